@@ -188,11 +188,23 @@ MC_SALIFE = dict(module="SALife", name="salife", constants=dict(MaxChildren=3, F
                  what="two-party key establishment with a random source that may fail at any read")
 
 
+def gen_multisa(kind, prop):
+    """Behaviours of MultiSA.tla (several SA objects alive at once, created from different proposals, used in every order)."""
+    return dict(module="Gen_MultiSA", name="multisa_" + kind, trace=False, invariants=("Sound", "Emit"), timeout=3000,
+                constants=dict(NObj=lambda ctx: 4 if ctx.thorough and kind == "child" else 3, MaxOps=lambda ctx: 8 if kind == "child" else (6 if ctx.thorough else 5), Kind='"%s"' % kind, PropId='"%s"' % prop))
+
+
+MC_MULTISA = dict(module="MultiSA", name="multisa_design", constants=dict(NObj=3, MaxOps=7, TypesPerObject=True, UseOnce=False), invariants=("OwnParams",),
+                  what="several SA objects alive at once: what a use observes is a function of the object's own proposal, whatever was created or used in between")
+MC_MULTISA_KNOB = dict(module="MultiSA", name="multisa_knob_TypesPerObject", expect="violate", constants=dict(NObj=3, MaxOps=7, TypesPerObject=False, UseOnce=True), invariants=("OwnParams",),
+                       what="sanity: if creating an object writes its parameters into a type object shared with the others, TLC must find a use that sees them")
+
+
 KEY_AGREEMENT_KINDS = '{"dh", "new_ike_sa", "ike_derive", "keys_stress"}'
 
 
 def run_c07(ctx, C):
-    codec_common(ctx, C, [GEN_KEYS, gen_obj("ikesa", "C07"), gen_session("C07")], [], mcs=[MC_SALIFE, MC_OBJ, MC_OBJ_KNOB], traces=())
+    codec_common(ctx, C, [GEN_KEYS, gen_obj("ikesa", "C07"), gen_session("C07"), gen_multisa("ike", "C07")], [], mcs=[MC_SALIFE, MC_OBJ, MC_OBJ_KNOB, MC_MULTISA, MC_MULTISA_KNOB], traces=())
     # "initiator and responder end up with identical SAs" also when several key agreements run at the same time
     C.stage_race(ctx, dict(module="Gen_Schedules", name="keysets", prop="C07", constants=dict(Focus=KEY_AGREEMENT_KINDS)))
     C.stage_apalache_prfplus(ctx)
@@ -203,7 +215,8 @@ GEN_DH = dict(module="Gen_DH", name="dh", trace=False, replay_workers=16)
 
 
 def run_c08(ctx, C):
-    codec_common(ctx, C, [GEN_CHILD, GEN_KEYS, gen_hist("C08"), gen_obj("ikesa", "C08")], [], mcs=[MC_SALIFE, MC_SK, mc_sk_knob("ResetPerPrfBlock"), MC_OBJ], traces=())
+    codec_common(ctx, C, [GEN_CHILD, GEN_KEYS, gen_hist("C08"), gen_obj("ikesa", "C08"), gen_multisa("child", "C08")], [],
+                 mcs=[MC_SALIFE, MC_SK, mc_sk_knob("ResetPerPrfBlock"), MC_OBJ, MC_MULTISA, MC_MULTISA_KNOB], traces=())
     C.stage_apalache_prfplus(ctx)
 
 
